@@ -53,6 +53,9 @@ struct Witness {
     /// files visible to the in-memory file reader: path -> content
     #[serde(default)]
     files: std::collections::HashMap<String, String>,
+    /// the original (pre-transpilation) map, as JSON text, for the composition check (also reference it from `source`)
+    #[serde(default)]
+    original_map: Option<String>,
     /// the bad behaviour: REPRODUCED iff all conditions hold
     violated_when: Vec<serde_json::Value>,
 }
@@ -152,6 +155,7 @@ fn main() {
     }));
     std::panic::set_hook(prev);
 
+    let mut composition_mismatch: Option<String> = None;
     let mut panicked = false;
     let mut errored: Option<String> = None;
     let mut code = String::new();
@@ -168,6 +172,40 @@ fn main() {
         Ok(Ok((o, c))) => {
             code = o.code.clone();
             content = c;
+            // C10 stated directly: chained(gen) == original(rewrite(gen)) for every token of the plain rewrite map
+            if let Some(om) = &w.original_map {
+                if let Ok(orig) = swc::sourcemap::SourceMap::from_reader(om.as_bytes()) {
+                    let mk = |chain: bool| rewriter::Config {
+                        chain_source_map: chain,
+                        print_comments: config.print_comments,
+                        local_var_prefix: config.local_var_prefix.clone(),
+                        csi_methods: config.csi_methods.clone(),
+                        verbosity: TelemetryVerbosity::Off,
+                        literals: false,
+                        file_prefix_code: Vec::new(),
+                    };
+                    let plain = trailer_map(&rewriter::print_js(&o.code, &o.source_map, &o.original_source_map, &mk(false)));
+                    let chained = trailer_map(&rewriter::print_js(&o.code, &o.source_map, &o.original_source_map, &mk(true)));
+                    if let (Some(p), Some(c)) = (plain, chained) {
+                        for t in p.tokens() {
+                            let want = orig.lookup_token(t.get_src_line(), t.get_src_col());
+                            let got = c.lookup_token(t.get_dst_line(), t.get_dst_col()).filter(|g| g.get_dst_line() == t.get_dst_line() && g.get_dst_col() == t.get_dst_col());
+                            let same = match (&want, &got) {
+                                (Some(a), Some(b)) => a.get_src_line() == b.get_src_line() && a.get_src_col() == b.get_src_col() && a.get_source() == b.get_source() && a.get_name() == b.get_name(),
+                                (None, None) => true,
+                                _ => false,
+                            };
+                            if !same && composition_mismatch.is_none() {
+                                composition_mismatch = Some(format!("generated {}:{} want {:?} got {:?}", t.get_dst_line(), t.get_dst_col(),
+                                    want.map(|a| (a.get_source().map(|x| x.to_string()), a.get_src_line(), a.get_src_col(), a.get_name().map(|x| x.to_string()))),
+                                    got.map(|a| (a.get_source().map(|x| x.to_string()), a.get_src_line(), a.get_src_col(), a.get_name().map(|x| x.to_string())))));
+                            }
+                        }
+                    } else {
+                        composition_mismatch = Some("a map did not decode".to_string());
+                    }
+                }
+            }
             if let Some(ts) = &o.transform_status {
                 metric = ts.telemetry.get_instrumented_propagation() as i64;
                 status = format!("{}", ts.status).to_lowercase();
@@ -226,6 +264,10 @@ fn main() {
                 "debug_is_not" => dbg_text != v.as_str().unwrap(),
                 "literal_missing" => literals_present && !literals.iter().any(|l| l.0 == v.as_str().unwrap()),
                 "literal_present" => literals.iter().any(|l| l.0 == v.as_str().unwrap()),
+                "literal_locations_ne" => {
+                    let a = v.as_array().unwrap();
+                    literals.iter().filter(|l| l.0 == a[0].as_str().unwrap()).count() as i64 != a[1].as_i64().unwrap()
+                }
                 "literal_at_not" => {
                     let a = v.as_array().unwrap();
                     let (val, line, col) = (a[0].as_str().unwrap(), a[1].as_u64().unwrap() as usize, a[2].as_u64().unwrap() as usize);
@@ -234,6 +276,10 @@ fn main() {
                 "metrics_file_ne" => m_file != v.as_str().unwrap(),
                 "metrics_status_ne" => m_status != v.as_str().unwrap(),
                 "defaults_ne" => defaults != v.as_str().unwrap(),
+                "composition_mismatch" => {
+                    println!("--- composition: {:?}", composition_mismatch);
+                    composition_mismatch.is_some() == v.as_bool().unwrap()
+                }
                 "trailer_count_ne" => content.matches("sourceMappingURL=").count() as i64 != v.as_i64().unwrap(),
                 "map_invalid" => (trailer_map(&content).is_none()) == v.as_bool().unwrap(),
                 "map_sources_ne" => {
@@ -264,6 +310,10 @@ fn main() {
                         },
                         _ => true,
                     }
+                }
+                "code_count_ne" => {
+                    let a = v.as_array().unwrap();
+                    code.matches(a[0].as_str().unwrap()).count() as i64 != a[1].as_i64().unwrap()
                 }
                 "code_before" => {
                     // ["a","b"]: text a occurs before text b in the code
